@@ -13,7 +13,7 @@ SHARDS = 32
 TOL = 1e-8
 RULE = (
     "Hypothesis generates circuits on 1..5 qubits restricted, per exporter, to the gates that exporter handles (qiskit: X Y Z H S T P CX CZ "
-    "CP CCX MCX MCZ SWAP barrier; cirq: the same without P; sympy: X H CX SWAP CCX MCX barrier on <=4 qubits; QASM 2/3: all), plus compiled "
+    "CP CCX MCX MCZ mctrl(X) SWAP barrier; cirq: the same without P; sympy: X H CX SWAP CCX MCX barrier on <=4 qubits; QASM 2/3: all), plus compiled "
     "generated functions (aliased / dotted / re-defined qubit names); every target {qiskit, cirq, sympy} x {circuit, gate} and QASM "
     "{2,3} x {circuit, gate} is exported and compared with the reference unitary (numpy dense simulation, little-endian; cirq after index "
     "bit-reversal), QASM through a reader of the emitted dialect (one formal per qubit in index order, same ops / qubits / parameters). "
@@ -27,10 +27,10 @@ ASSUMPTIONS = [
 ]
 
 GATES = {
-    "qiskit": ["X", "Y", "Z", "H", "S", "T", "P", "CX", "CZ", "CP", "CCX", "MCX", "MCZ", "SWAP", "BARRIER"],
-    "cirq": ["X", "Y", "Z", "H", "S", "T", "CX", "CZ", "CP", "CCX", "MCX", "MCZ", "SWAP", "BARRIER"],
+    "qiskit": ["X", "Y", "Z", "H", "S", "T", "P", "CX", "CZ", "CP", "CCX", "MCX", "MCZ", "MCTX", "SWAP", "BARRIER"],
+    "cirq": ["X", "Y", "Z", "H", "S", "T", "CX", "CZ", "CP", "CCX", "MCX", "MCZ", "MCTX", "SWAP", "BARRIER"],
     "sympy": ["X", "H", "CX", "SWAP", "CCX", "MCX", "BARRIER"],
-    "qasm": ["X", "Y", "Z", "H", "S", "T", "P", "CX", "CZ", "CP", "CCX", "MCX", "MCZ", "SWAP", "BARRIER"],
+    "qasm": ["X", "Y", "Z", "H", "S", "T", "P", "CX", "CZ", "CP", "CCX", "MCX", "MCZ", "MCTX", "SWAP", "BARRIER"],
 }
 TARGETS = [("qiskit", "circuit"), ("qiskit", "gate"), ("cirq", "circuit"), ("cirq", "gate"), ("sympy", "circuit"), ("sympy", "gate"),
            ("qasm3", "circuit"), ("qasm3", "gate"), ("qasm2", "circuit"), ("qasm2", "gate")]
@@ -53,6 +53,14 @@ def case(draw):
         return {"kind": "compiled", "prog": prog, "opt": draw(st.sampled_from(["default", "fast"])), "fw": fw, "mode": mode}
     maxq = 4 if base == "sympy" else 5
     circ = draw(gen_circ.general_circuit(1, maxq, 10, GATES[base]))
+    if "MCTX" in GATES[base] and circ["n"] >= 2 and draw(st.integers(0, 9)) < 3:
+        # both kinds of generic multi-controlled gates with the same number of controls in one circuit
+        k = draw(st.integers(1, min(circ["n"] - 1, 3)))
+        pair = [["MCTX", draw(gen_circ.qubits(circ["n"], k + 1)), None], ["MCZ", draw(gen_circ.qubits(circ["n"], k + 1)), None]]
+        if draw(st.booleans()):
+            pair.reverse()
+        pos = draw(st.integers(0, len(circ["gates"])))
+        circ["gates"][pos:pos] = pair
     name = draw(st.sampled_from(["qc", "mygate", "h", "x", "f_1"]))
     return {"kind": "circuit", "circ": circ, "name": name, "fw": fw, "mode": mode}
 
